@@ -127,6 +127,38 @@ def _fake_os_mount_points():
     return list(ENV.mounts)
 
 
+class _FakePsutil(object):
+    """stands for the psutil module while a command runs: the mount table of the scenario.  The real
+    trashcli.fstab.mount_points_listing.os_mount_points() filters it.  Every volume but '/' is reported as a btrfs
+    subvolume of ONE device (the same device string on several mount points is ordinary: subvolumes, bind mounts)"""
+    import collections as _c
+    sdiskpart = _c.namedtuple('sdiskpart', ['device', 'mountpoint', 'fstype', 'opts'])
+
+    @classmethod
+    def disk_partitions(cls, all=False):
+        out = []
+        for mp in ENV.mounts:
+            if mp == '/':
+                out.append(cls.sdiskpart('/dev/sda1', '/', 'ext4', 'rw'))
+            else:
+                out.append(cls.sdiskpart('/dev/sdz2', mp, 'btrfs', 'rw,subvol=' + mp))
+        return out
+
+
+class _FakePsutilInstalled(object):
+    def __enter__(self):
+        self.saved = sys.modules.get('psutil', None)
+        sys.modules['psutil'] = _FakePsutil
+        return self
+
+    def __exit__(self, *a):
+        if self.saved is None:
+            sys.modules.pop('psutil', None)
+        else:
+            sys.modules['psutil'] = self.saved
+        return False
+
+
 _TRASHCLI_MODULES = None
 
 
@@ -169,7 +201,7 @@ def install_env_stubs():
             elif val is _real_datetime.datetime:
                 setattr(mod, name, _FakeDatetimeClass)
     mi._my_input = _fake_input
-    mpl.os_mount_points = _fake_os_mount_points
+    # (the mount table is stubbed one level lower, at psutil: the real os_mount_points() filters it)
     _STUBS_INSTALLED = True
 
 
@@ -246,7 +278,7 @@ def _call_main(spec):
     code, exc = None, None
     try:
         try:
-            with _VirtualOsClock():
+            with _VirtualOsClock(), _FakePsutilInstalled():
                 rc = main()
             code = 0 if rc is None else rc
         except SystemExit as e:
